@@ -148,6 +148,11 @@ pub struct QGen<'a> {
     pub version: u32,
     /// variable-length relationship steps (grammar v3), independent of `version`
     pub varlen: bool,
+    /// relationships in the graph the query will run on, and variable-length steps generated so
+    /// far: the reference semantics enumerates every path of distinct relationships, so the
+    /// generator keeps (paths per step) x (steps) small
+    pub graph_rels: usize,
+    varlen_steps: usize,
     pub scope: Vec<(String, Kind)>,
     fresh: usize,
     /// this query may use constructs on which the engine is known to deviate (OPTIONAL MATCH
@@ -161,7 +166,7 @@ pub struct QGen<'a> {
 impl<'a> QGen<'a> {
     pub fn new(rng: &'a mut Rng, version: u32, varlen: bool) -> Self {
         let risky = version >= 2 && rng.chance(1, 12);
-        QGen { rng, version, varlen, scope: vec![], fresh: 0, risky }
+        QGen { rng, version, varlen, graph_rels: 8, varlen_steps: 0, scope: vec![], fresh: 0, risky }
     }
 
     fn fresh(&mut self, prefix: &str) -> String {
@@ -329,14 +334,19 @@ impl<'a> QGen<'a> {
 
     fn gen_rp(&mut self) -> RP {
         let mut rp = RP { var: None, types: vec![], dir: Dir::Out, props: vec![], range: None };
-        let varlen = self.varlen && self.rng.chance(1, 2);
+        let varlen = self.varlen && self.varlen_steps < 2 && self.rng.chance(1, 2);
         if varlen {
             let lo = self.rng.below(3) as u32;
+            // unbounded only as the single variable-length step over a graph with few relationships
+            let unbounded_ok = self.varlen_steps == 0 && self.graph_rels <= 5;
             let hi = match self.rng.below(4) {
-                0 => None,
-                x => Some(lo + x as u32 - 1),
+                0 if unbounded_ok => None,
+                0 => Some(lo + 1),
+                x => Some((lo + x as u32 - 1).min(3)),
             };
-            rp.range = Some((lo, hi));
+            // an unbounded step closes the budget for this query
+            self.varlen_steps += if hi.is_none() { 2 } else { 1 };
+            rp.range = Some((lo, hi.map(|h| h.max(lo))));
         } else if self.rng.chance(1, 2) {
             let v = self.fresh("r");
             self.scope.push((v.clone(), Kind::Rel));
